@@ -37,3 +37,47 @@ Example C14_example :
   | None => False
   end.
 Proof. vm_compute. reflexivity. Qed.
+
+(** WHOLE ASYNC HISTORIES (Proofs/AsyncRefine.v): an async history is observationally the synchronous history of its resolving polls;
+    a pending push is stored exactly once, at the poll that resolves, with its value - or never if the future is dropped *)
+Require MRB.Proofs.AsyncRefine.
+Theorem C14_history_refines :
+  forall (h : list Async.aop) (s : Async.astate) (a : Pipe.pipe), Rel.Rel (Async.base s) a -> snd (Pipe.srun a (AsyncRefine.erase s h)) = true -> Rel.Rel (Async.base (fst (Async.arun s h))) (fst (fst (Pipe.srun a (AsyncRefine.erase s h)))) /\ AsyncRefine.obs s h = snd (fst (Pipe.srun a (AsyncRefine.erase s h))) /\ AsyncRefine.ledger (snd (Async.arun s h)) = AsyncRefine.ledger (snd (fst (Pipe.srun a (AsyncRefine.erase s h)))).
+Proof. exact AsyncRefine.async_refines. Qed.
+Print Assumptions C14_history_refines.
+
+Theorem C14_history_is_sync :
+  forall (h : list Async.aop) (s : Async.astate) (a : Pipe.pipe), Rel.Rel (Async.base s) a -> snd (Pipe.srun a (AsyncRefine.erase s h)) = true -> let m_async := Async.base (fst (Async.arun s h)) in let m_sync := fst (Seq.run (Async.base s) (AsyncRefine.erase s h)) in AsyncRefine.obs s h = snd (Seq.run (Async.base s) (AsyncRefine.erase s h)) /\ AsyncRefine.ledger (snd (Async.arun s h)) = AsyncRefine.ledger (snd (Seq.run (Async.base s) (AsyncRefine.erase s h))) /\ Seq.pub m_async = Seq.pub m_sync /\ Seq.slots m_async = Seq.slots m_sync /\ Seq.flag m_async = Seq.flag m_sync /\ Seq.freed m_async = Seq.freed m_sync /\ (forall j : Types.stage, Seq.here (Seq.it_of j m_async) = Seq.here (Seq.it_of j m_sync)) /\ (forall j : Types.stage, Seq.here (Seq.it_of j m_async) = true -> Seq.ix (Seq.it_of j m_async) = Seq.ix (Seq.it_of j m_sync) /\ Seq.det (Seq.it_of j m_async) = Seq.det (Seq.it_of j m_sync)).
+Proof. exact AsyncRefine.async_is_sync. Qed.
+Print Assumptions C14_history_is_sync.
+
+Theorem C14_held_value_kept :
+  forall (v : BinNums.N) (s : Async.astate) (h1 h2 : list Async.aop), let s1 := fst (Async.astep s (Async.AHold (Types.Push v))) in fst (snd (Async.astep s (Async.AHold (Types.Push v)))) = Types.OPending -> AsyncRefine.kept Types.P s1 (h1 ++ h2) = true -> Types.tget Types.P (Async.held s1) = Some (Types.Push v) /\ Types.tget Types.P (Async.held (fst (Async.arun s1 h1))) = Some (Types.Push v) /\ Types.tget Types.P (Async.held (fst (Async.arun s (Async.AHold (Types.Push v) :: h1)))) = Some (Types.Push v) /\ AsyncRefine.attempt (fst (Async.arun s1 h1)) (Async.ARepoll Types.P) = Some (Types.Push v).
+Proof. exact AsyncRefine.held_value_kept. Qed.
+Print Assumptions C14_held_value_kept.
+
+Theorem C14_pending_push_stored_once :
+  forall (v : BinNums.N) (s : Async.astate) (mid : list Async.aop), let s1 := fst (Async.astep s (Async.AHold (Types.Push v))) in let s2 := fst (Async.arun s1 mid) in AsyncRefine.held_wf s -> fst (snd (Async.astep s (Async.AHold (Types.Push v)))) = Types.OPending -> AsyncRefine.kept Types.P s1 mid = true -> AsyncRefine.visible (fst (snd (Async.astep s2 (Async.ARepoll Types.P)))) = true -> AsyncRefine.erase s (Async.AHold (Types.Push v) :: mid ++ Async.ARepoll Types.P :: nil) = (AsyncRefine.erase s1 mid ++ Types.Push v :: nil)%list /\ (forall g : Types.op, List.In g (AsyncRefine.erase s1 mid) -> Async.future_of g <> Some Types.P) /\ AsyncRefine.performed s2 (Async.ARepoll Types.P) = Some (Types.Push v) /\ Types.tget Types.P (Async.held (fst (Async.astep s2 (Async.ARepoll Types.P)))) = None.
+Proof. exact AsyncRefine.pending_push_stored_once. Qed.
+Print Assumptions C14_pending_push_stored_once.
+
+Theorem C14_dropped_push_not_stored :
+  forall (v : BinNums.N) (s : Async.astate) (mid : list Async.aop), let s1 := fst (Async.astep s (Async.AHold (Types.Push v))) in let s2 := fst (Async.arun s1 mid) in AsyncRefine.held_wf s -> fst (snd (Async.astep s (Async.AHold (Types.Push v)))) = Types.OPending -> AsyncRefine.kept Types.P s1 mid = true -> AsyncRefine.erase s (Async.AHold (Types.Push v) :: mid ++ Async.ADropFut Types.P :: nil) = AsyncRefine.erase s1 mid /\ (forall g : Types.op, List.In g (AsyncRefine.erase s1 mid) -> Async.future_of g <> Some Types.P) /\ Async.astep s2 (Async.ADropFut Types.P) = (Async.set_held Types.P None s2, (Types.OUnit, nil)) /\ Types.tget Types.P (Async.held (fst (Async.astep s2 (Async.ADropFut Types.P)))) = None.
+Proof. exact AsyncRefine.dropped_push_not_stored. Qed.
+Print Assumptions C14_dropped_push_not_stored.
+
+Theorem C14_resolved_push_result :
+  forall (v : BinNums.N) (s : Async.astate) (a : Pipe.pipe), Rel.Rel (Async.base s) a -> Types.tget Types.P (Async.held s) = Some (Types.Push v) -> AsyncRefine.visible (fst (snd (Async.astep s (Async.ARepoll Types.P)))) = true -> let s' := fst (Async.astep s (Async.ARepoll Types.P)) in let a' := fst (Pipe.sstep a (Types.Push v)) in Rel.Rel (Async.base s') a' /\ snd (Async.astep s (Async.ARepoll Types.P)) = (Types.OOk, Pipe.a_ev a (Seq.store_ev Seq.SAssign (Pipe.a_cell (Types.tP (Pipe.lpos a)) a) ++ Types.LTake v :: nil)) /\ List.nth (Types.tP (Pipe.lpos a)) (Pipe.tape a') BinNums.N0 = v /\ Types.tP (Pipe.lpos a') = Types.tP (Pipe.lpos a) + 1 /\ Types.tget Types.P (Async.held s') = None.
+Proof. exact AsyncRefine.resolved_push_result. Qed.
+Print Assumptions C14_resolved_push_result.
+
+Theorem C14_completes_when_condition_true :
+  forall (k : Types.stage) (f : Types.op) (s : Async.astate) (a : Pipe.pipe), Rel.Rel (Async.base s) a -> AsyncRefine.held_wf s -> Types.tget k (Async.held s) = Some f -> Async.refused (fst (snd (Pipe.sstep a f))) = false -> fst (snd (Async.astep s (Async.ARepoll k))) <> Types.OPending /\ snd (Async.astep s (Async.ARepoll k)) = snd (Pipe.sstep a f) /\ Rel.Rel (Async.base (fst (Async.astep s (Async.ARepoll k)))) (fst (Pipe.sstep a f)) /\ Types.tget k (Async.held (fst (Async.astep s (Async.ARepoll k)))) = None.
+Proof. exact AsyncRefine.completes_when_condition_true. Qed.
+Print Assumptions C14_completes_when_condition_true.
+
+Theorem C14_pending_while_condition_false :
+  forall (k : Types.stage) (f : Types.op) (s : Async.astate) (a : Pipe.pipe), Rel.Rel (Async.base s) a -> AsyncRefine.held_wf s -> Types.tget k (Async.held s) = Some f -> Async.refused (fst (snd (Pipe.sstep a f))) = true -> snd (Async.astep s (Async.ARepoll k)) = (Types.OPending, nil) /\ Rel.Rel (Async.base (fst (Async.astep s (Async.ARepoll k)))) a /\ Types.tget k (Async.held (fst (Async.astep s (Async.ARepoll k)))) = Some f.
+Proof. exact AsyncRefine.pending_while_condition_false. Qed.
+Print Assumptions C14_pending_while_condition_false.
+
